@@ -415,3 +415,16 @@ func queryInTx(q ent.Query) bool {
 	}
 	return strings.Contains(d.Elem().Type().String(), "txDriver")
 }
+
+// oneMessageID: a successful Publish of one message names exactly one message id (C01).
+func oneMessageID(resp proto.Message) (string, *Violation) {
+	pr, _ := resp.(*pubsubpb.PublishResponse)
+	if pr == nil || len(pr.MessageIds) != 1 || pr.MessageIds[0] == "" {
+		n := 0
+		if pr != nil {
+			n = len(pr.MessageIds)
+		}
+		return "", viol("C01", "publish_ids", "Publish of 1 messages returned %d ids", n)
+	}
+	return pr.MessageIds[0], nil
+}
